@@ -3,6 +3,7 @@
 Oracle: the structure G-lex rendered (known by construction) and the reference
 reader (vlib/refreader.py); ddSMT's ``parse_smtlib`` must return exactly that.
 """
+import os
 import re
 
 from vlib import env, gen_lex, model, refreader, runner
@@ -156,6 +157,63 @@ def shard(ctx, acc):
                  sample=dict(kind='sequence', text=text, expected=exp))
 
     runner.hyp_run(ctx, strat, body, ctx.share(total))
+    real_reads(ctx, acc)
+
+
+def real_read_case(ctx, acc, text, exp, classes, slot):
+    import subprocess
+    from vlib import e2e
+    expected = gen_lex.norm_tree(exp)
+    wd = os.path.join(ctx.workdir, f'read{slot}')
+    case = dict(kind='real-read', text=text, expected=exp)
+    spec = dict(pred=['true'], T=[0, 'ok\n', ''], F=[1, '', ''], noise=None, delay=None, fault=None, directive=False)
+    r = e2e.run_ddsmt(wd, text, spec, dict(timeout=20), mode='launcher', plan=dict(parse_only=True), wall_limit=120)
+    if r.timed_out or r.after is None:
+        acc.skip('real-read: wall limit or launcher crash')
+        return
+    if 'parsed' not in r.after:
+        acc.violation('real-read/run-fails-before-reading', f'text={text!r}: status {r.exit}, stderr {r.stderr[-300:]!r}', case)
+    else:
+        got = gen_lex.norm_tree(r.after['parsed'])
+        if got != expected:
+            key, (i, et, gt) = diff_key(expected, got)
+            acc.violation('real-read/main/' + key, f'a real run read text={text!r} as {got!r}, expected {expected!r} '
+                          f'(first difference at token {i}: expected {et!r}, got {gt!r})', case)
+    p = subprocess.run([e2e.PY, os.path.join(env.REPO, 'bin', 'ddsmt'), '--parser-test', r.infile, r.outfile, '/bin/true'],
+                       capture_output=True, timeout=120, env=dict(os.environ, PYTHONDONTWRITEBYTECODE='1'))
+    out = p.stdout.decode('utf-8', 'replace')
+    # the rendering is followed by the line "None" (print() of the writer's return value)
+    if out.endswith('None\n'):
+        out = out[:-5]
+    try:
+        toks = refreader.tokens(out)
+    except refreader.ReadError:
+        toks = refreader.tokens_lenient(out)
+    want = refreader.flatten_top(expected)
+    if p.returncode != 0 or toks != want:
+        i = 0
+        while i < len(toks) and i < len(want) and toks[i] == want[i]:
+            i += 1
+        acc.violation('real-read/parser-test/' + classify(want[i] if i < len(want) else None),
+                      f'--parser-test on text={text!r}: status {p.returncode}, token {i}: expected '
+                      f'{want[i] if i < len(want) else None!r} got {toks[i] if i < len(toks) else None!r}', case)
+    acc.case(dict(text=text, kind='real-read'), nontrivial=nontrivial(classes), classes=['real-read'] + sorted(classes))
+
+
+def real_reads(ctx, acc):
+    """(iii) what real runs read: the text is written to a file (no newline translation)
+    and read by (a) a real run of ddSMT's main function, observed when the parsed input is
+    handed to theory detection, and (b) `ddsmt --parser-test`, whose standard output is the
+    rendering of the parsed input."""
+    n = [0]
+
+    def body(doc):
+        text, exp, classes = gen_lex.render(doc)
+        n[0] += 1
+        real_read_case(ctx, acc, text, exp, classes, n[0] % 4)
+
+    strat = gen_lex.top(max_items=5, max_leaves=20)
+    runner.hyp_run(ctx, strat, body, ctx.share(320 if ctx.quick else 12000), salt=31)
 
 
 def finish(acc, tier):
@@ -164,4 +222,6 @@ def finish(acc, tier):
 
 def replay(case, acc, ctx):
     dd = env.load()
+    if case.get('kind') == 'real-read':
+        return real_read_case(ctx, acc, case['text'], case['expected'], [], 0)
     check_text(dd, case['text'], case['expected'], acc, case)
